@@ -339,7 +339,8 @@ def evaluate(ctx, drv, cases):
                 same = (mn == inocb and r['cb'] == icb and (mcalls == icalls or 'error' in icb))
             else:
                 def key(cl):
-                    return (cl['piece'], str(cl['exc']))
+                    import json
+                    return (cl['piece'], json.dumps(cl['exc'], sort_keys=True))
                 a = sorted([{**cl, 'done': 0} for cl in mcalls], key=key)
                 b = sorted([{**cl, 'done': 0} for cl in icalls], key=key)
                 possible = [cl['exc'] for cl in mcalls if cl['exc']]
